@@ -433,6 +433,55 @@ def childErrors (n root : Nat) (w : List QN) (oc : OC := {}) : Verdict :=
       | (none, fo) => ([], fo)
   ⟨ls.errors ++ tail, ls.fuelOut || ls.s.fuelOut || fo⟩
 
+/-! ### the encoder's child loop (`XsdGroup.raw_encode`, groups.py:1146-1181)
+
+The encoder drives the *same* visitor over the names of the content it emits, but its loop differs
+from the decoder's: every error of `advance()` is kept and the loop goes on (no `clear`, no
+model-less fallback); a name met after the model ended is always an error. -/
+
+/-- `while model.element is not None:` for one content name (groups.py:1153-1165). -/
+def encStep (oc : OC) (root : Nat) (index : Nat) (q : QN) : Nat → LoopSt → LoopSt
+  | 0, ls => { ls with errors := ls.errors ++ [⟨index, root, 0⟩], broken := true, fuelOut := true }
+  | fuel + 1, ls =>
+    match ls.s.element with
+    | none => { ls with errors := ls.errors ++ [⟨index, root, 0⟩] }      -- while-else
+    | some _ =>
+      let (matched, sm) := visitorMatchO A oc ls.s q
+      if matched then
+        match advanceO A oc sm true with
+        | .done s errs | .ended s errs =>
+          { ls with s, errors := ls.errors ++ errs.map fun e => ⟨index, e.particle, e.occurs⟩ }
+      else
+        match advanceO A oc sm false with
+        | .done s errs | .ended s errs =>
+          encStep oc root index q fuel
+            { ls with s, errors := ls.errors ++ errs.map fun e => ⟨index, e.particle, e.occurs⟩ }
+
+/-- The children errors the encoder collects for the emitted names `w` (strict mode raises the
+    first of them; lax mode reports them all). -/
+def encodeErrors (n root : Nat) (w : List QN) (oc : OC := {}) : Verdict :=
+  let s0 := ocFix oc (init A n root)
+  let fuelC := 4 * A.size + 8
+  let ls := w.zipIdx.foldl (fun ls (q, i) => encStep A oc root i q fuelC ls) { s := s0 }
+  -- `index - cdata_index + 1` after the loop: `index` keeps its initial 0 when there is no content
+  let endIdx := if w.isEmpty then 1 else w.length
+  let (tail, fo) := match ls.s.element with
+    | none => ([], false)
+    | some _ => match stopFirst A oc fuelC ls.s with
+      | (some e, fo) => ([ChildErr.mk endIdx e.particle e.occurs], fo)
+      | (none, fo) => ([], fo)
+  ⟨ls.errors ++ tail, ls.fuelOut || ls.s.fuelOut || fo⟩
+
+/-- the clause added to the encoder by fix 246d372 (same test as the decoder's, groups.py:968): a
+    plain validation error (raised in strict mode), after which the child loop still runs -/
+def emptyChoiceRoot (root : Nat) : Bool :=
+  (A.node root).kind == .choice && (A.node root).content.isEmpty && (A.node root).lo != 0
+
+/-- strict-mode encode gets past the content model without raising: no empty-choice error and no
+    children error -/
+def encodeSilent (n root : Nat) (w : List QN) (oc : OC := {}) : Bool :=
+  !emptyChoiceRoot A root && (encodeErrors A n root w oc).errors.isEmpty
+
 /-- the implementation's verdict on a child sequence -/
 def verdict (n root : Nat) (w : List QN) (oc : OC := {}) : Bool :=
   (childErrors A n root w oc).errors.isEmpty
